@@ -341,7 +341,7 @@ alone (`X`, `Y`). If the client completes on a stream `W` having consumed `n` by
   response because both directions use the same MAC key and format), or
 * the explicit pair `msg = W[:n-macLength] ++ E`, `tag = W[n-macLength:n]` is a **forgery** under
   `k_B`: it verifies although no holder of `k_B` MACed `msg`. -/
-theorem wrong_secret_never_completes (P : Prims) (hm : MacLen P) (kB priv pubX cpad : Bytes) (hour : Int)
+theorem wrong_secret_never_completes (P : Prims) (kB priv pubX cpad : Bytes) (hour : Int)
     (cs : List Bytes) (seed rest : Bytes) (unread : List Bytes)
     (h : dhLoop P true ((DhHs.new kB priv pubX).generate P cpad hour).1 [] cs = .done seed rest unread)
     (bodies marks : List Bytes) (hmarks : ∀ m ∈ marks, m.length = dhSize) :
